@@ -233,6 +233,14 @@ func init() {
 			for j, n := 0, r.intn(3); j < n; j++ {
 				names = append(names, []string{"X-My-Fingerprint", "x-custom-fp", "X-JA3-Fingerprint", "X_Under-Score", "X-Another"}[r.intn(5)])
 			}
+			if r.chance(1, 3) {
+				// custom sets need not list the defaults first
+				for j := len(names) - 1; j > 0; j-- {
+					k := r.intn(j + 1)
+					names[j], names[k] = names[k], names[j]
+				}
+				c.tag("inj:shuffled")
+			}
 			var inj []string
 			for _, n := range names {
 				switch r.intn(4) {
